@@ -1,7 +1,9 @@
 package c11
 
 import (
+	"encoding/json"
 	"fmt"
+	"os"
 	"testing"
 
 	"verif/harness/lib/evid"
@@ -158,4 +160,39 @@ func TestWitnessWspForeignJoin(t *testing.T) {
 	if mk := markersIn(sh.awaitMedia(rd)); len(mk) > 0 {
 		witnessFail(t, "wsp-foreign-join", mk, "user with pull=%s only opened a WSP data channel on it, JOINed channel %s of an administrator's session on %s and received media of %v", sh.live[0], ch, victim, mk)
 	}
+}
+
+// TestReplayFile: violations of the generated histories are replayed through
+// rapid's own .fail file (printed with the failure); the replay files written
+// for the witnesses name the witness test to run again.
+func TestReplayFile(t *testing.T) {
+	p := os.Getenv("VERIF_REPLAY_FILE")
+	if p == "" {
+		t.Skip("no replay file")
+	}
+	b, err := os.ReadFile(p)
+	if err != nil {
+		t.Fatal(err)
+	}
+	var doc struct {
+		Check   string `json:"check"`
+		Message string `json:"message"`
+	}
+	if err := json.Unmarshal(b, &doc); err != nil {
+		t.Fatal(err)
+	}
+	witnesses := map[string]func(*testing.T){
+		"witness-ws-rtsp-unchecked":      func(t *testing.T) { TestWitnessWsPublishWithoutPushRight(t); TestWitnessWsPathSwitch(t) },
+		"witness-hls-segment-right":      TestWitnessHlsSegmentRight,
+		"witness-hls-playlist":           TestWitnessHlsSegmentRight,
+		"witness-deleted-user-token-api": TestWitnessDeletedUserToken,
+		"witness-deleted-user-media":     TestWitnessDeletedUserToken,
+		"witness-streams-list":           TestWitnessDeletedUserToken,
+		"witness-wsp-foreign-join":       TestWitnessWspForeignJoin,
+	}
+	if f, ok := witnesses[doc.Check]; ok {
+		t.Run(doc.Check, f)
+		return
+	}
+	t.Fatalf("check %q (%s) comes from a generated history: replay it with the rapid fail file printed next to the violation (-rapid.failfile=...) or with the same -rapid.seed", doc.Check, doc.Message)
 }
